@@ -138,13 +138,13 @@ def run_path(cset, fc, prefix, res, opts):
         if cspec is not None and "self" in env and not fc.key.endswith(".__init__") and not fc.no_inv:
             for label, inv in class_invariants(cset, clsname):
                 ctx.assume(I.spec_bool(inv))
+        for label, req in fc.requires:
+            ctx.assume(I.spec_bool(req))
         for name, text in fc.lets.items():
             env[name] = I.spec_val(text)
             entry_env[name] = env[name]
         for d in fc.defs:
             ctx.assume(I.spec_bool(d))
-        for label, req in fc.requires:
-            ctx.assume(I.spec_bool(req))
         I.old_heap = None
         if not ctx._feasible(z3.BoolVal(True)):
             raise PathAbort("precondition unsatisfiable on this path")
